@@ -2,6 +2,7 @@ package main
 
 import (
 	"fmt"
+	"os"
 	"sort"
 	"strings"
 
@@ -491,7 +492,85 @@ func genMulti(r *rng, big bool) ([][]string, string) {
 var nastyIDs = []string{"", "V1", "V2", "NE0", "NE1", "NE2", "V0", " ", "\n", "é", "日本語", "n\x00", "a->b", strings.Repeat("x", 300), "V10", "NE10", "0", "-1"}
 
 // adversarial node ids: an injective renaming drawing from helper-name alphabets
+var idSeparators = []string{" -> ", "->", " - ", "-", "|", ":", ",", " ", "\x00", "/", ".", "_", "=>", "\t", "\n", ";", "#", "::", "\x1f"}
+
+// renameAmbiguous gives node ids a content that breaks code which treats ids as anything but opaque strings: composite
+// keys built by joining two ids with a separator that occurs inside an id (two different edges with the same joined
+// key), ids that become equal after trimming / case folding / number parsing / Unicode normalisation, ids that are
+// prefixes of one another, invalid UTF-8, one long common prefix.
+func renameAmbiguous(r *rng, es [][]string) [][]string {
+	ids := nodeIDs(es)
+	m := map[string]string{}
+	for _, id := range ids {
+		m[id] = id
+	}
+	switch mode := r.intn(6); {
+	case mode <= 1 && len(es) >= 2:
+		// edges (X, Y+SEP+Z) and (X+SEP+Y, Z): both join to X SEP Y SEP Z
+		sep := idSeparators[r.intn(len(idSeparators))]
+		x, y, z := pick(r, "build", "a", "n", "x1"), pick(r, "test", "b", "7", "y"), pick(r, "deploy", "c", "0", "z")
+		for try := 0; try < 30; try++ {
+			e1, e2 := es[r.intn(len(es))], es[r.intn(len(es))]
+			if e1[0] == e1[1] || e2[0] == e2[1] || e1[0] == e2[0] || e1[1] == e2[1] || e1[0] == e2[1] {
+				continue
+			}
+			// e1[1] == e2[0] is impossible to satisfy (Y SEP Z != X SEP Y); any other sharing is fine
+			if e1[1] == e2[0] {
+				continue
+			}
+			m[e1[0]], m[e1[1]], m[e2[0]], m[e2[1]] = x, y+sep+z, x+sep+y, z
+			break
+		}
+	case mode == 2:
+		// equal after canonicalisation
+		variants := pick(r, []string{"a", "A", " a", "a ", "\ta"}, []string{"1", "01", "1.0", "+1", "1e0"}, []string{"\u00e9", "e\u0301", "\u00c9", "E\u0301"},
+			[]string{"stra\u00dfe", "STRASSE", "strasse", "Stra\u00dfe"}, []string{"i", "I", "\u0131", "\u0130"}, []string{"x", "x\x00", "x\u200b", "\ufeffx"})
+		for i, id := range ids {
+			if i < len(variants) {
+				m[id] = variants[i]
+			}
+		}
+	case mode == 3:
+		// prefixes of one another
+		p := pick(r, "n", "node", "ab", "0")
+		for i, id := range ids {
+			if i < 6 {
+				m[id] = p + strings.Repeat(pick(r, "0", "a", p), i)
+			}
+		}
+	case mode == 4:
+		// invalid UTF-8, lone surrogates' encodings, embedded quotes and newlines
+		odd := []string{"\xff", "\xc3\x28", "a\xffb", "\xed\xa0\x80", "\"", "'", "a\nb", "\\", "%s", "{}", "<a>", "\x7f"}
+		for i, id := range ids {
+			if r.chance(60) && i < len(odd) {
+				m[id] = odd[(i+r.intn(3))%len(odd)]
+			}
+		}
+	default:
+		// one long common prefix (hashes / comparisons that look at the first bytes or at the length only)
+		p := strings.Repeat(pick(r, "x", "ab", "\u00e9"), pick(r, 40, 200, 1000))
+		for i, id := range ids {
+			m[id] = p + fmt.Sprintf("%0*d", pick(r, 1, 3), i)
+		}
+	}
+	seen := map[string]bool{}
+	for _, id := range ids {
+		for seen[m[id]] {
+			m[id] = m[id] + "'"
+		}
+		seen[m[id]] = true
+	}
+	out := make([][]string, len(es))
+	for i, e := range es {
+		out[i] = []string{m[e[0]], m[e[1]]}
+	}
+	return out
+}
+
 func renameNasty(r *rng, es [][]string) [][]string {
+	if r.chance(45) {
+		return renameAmbiguous(r, es)
+	}
 	ids := nodeIDs(es)
 	m := map[string]string{}
 	used := map[string]bool{}
@@ -679,8 +758,15 @@ func genOptions(r *rng, es [][]string, gc genCfg) spec.Options {
 	}
 	o.P5 = pick(r, "", "polyline", "straight", "ortho", "splines", "splines", "noop")
 	integral := o.P4 == "ns" && r.chance(85)
-	extreme := o.P4 != "ns" && gc.extremePct > 0 && r.chance(gc.extremePct)
+	extreme := gc.extremePct > 0 && r.chance(gc.extremePct)
+	if extreme {
+		integral = false
+	}
 	xnum := func() float64 {
+		if o.P4 == "ns" && os.Getenv("VERIF_NS_HUGE") == "" {
+			// the NetworkSimplex positioner works on an integer grid: tiny positive values next to ordinary ones
+			return pick(r, 1e-9, 1e-6, 1e-5, 1e-4, 1e-12, 0.001, 0.01)
+		}
 		// finite, non-negative, extreme: tiny, subnormal, huge, a sum of two of which overflows, not exactly representable
 		return pick(r, 1e-12, 5e-324, 1e-300, 1e-9, 1e15+0.5, 1e150, 1e300, 1.7e308, 0.1+0.2, 1.0/3.0)
 	}
@@ -709,6 +795,17 @@ func genOptions(r *rng, es [][]string, gc genCfg) spec.Options {
 		}
 		if r.chance(30) {
 			o.FixedSize = &[2]float64{dim(), dim()}
+		}
+		if r.chance(15) && len(ids) > 0 {
+			// the same option given twice in one call, each with a map of its own (the later one wins today): entries that
+			// overlap with the first map, entries for other nodes, an entry for an id that is not in the graph
+			o.Sizes2 = []spec.NodeSize{}
+			for k := r.between(1, 4); k > 0; k-- {
+				o.Sizes2 = append(o.Sizes2, spec.NodeSize{ID: ids[r.intn(len(ids))], W: dim(), H: dim()})
+			}
+			if r.chance(40) {
+				o.Sizes2 = append(o.Sizes2, spec.NodeSize{ID: "not-in-the-graph", W: dim(), H: dim()})
+			}
 		}
 	}
 	if r.chance(50) {
@@ -753,6 +850,9 @@ func callKey(c *spec.Call) string {
 	if o.FixedSize != nil {
 		fmt.Fprintf(&b, "fs%v|", *o.FixedSize)
 	}
+	if o.Sizes2 != nil {
+		fmt.Fprintf(&b, "sz2%v|", o.Sizes2)
+	}
 	if o.Sizes != nil {
 		fmt.Fprintf(&b, "sz%v|", o.Sizes)
 	}
@@ -774,6 +874,10 @@ func callKey(c *spec.Call) string {
 func edgesText(es [][]string) string {
 	parts := make([]string, len(es))
 	for i, e := range es {
+		if len(e) != 2 {
+			parts[i] = fmt.Sprintf("<malformed edge %q>", e)
+			continue
+		}
 		parts[i] = fmt.Sprintf("%q->%q", e[0], e[1])
 		if len(e) == 2 && !strings.ContainsAny(e[0]+e[1], " \"\n\x00,>") && e[0] != "" && e[1] != "" {
 			parts[i] = e[0] + "->" + e[1]
@@ -799,6 +903,9 @@ func optsText(o spec.Options) string {
 	add("p5", o.P5)
 	if o.FixedSize != nil {
 		p = append(p, fmt.Sprintf("fixed=%vx%v", o.FixedSize[0], o.FixedSize[1]))
+	}
+	if o.Sizes2 != nil {
+		p = append(p, fmt.Sprintf("second-size-map=%d", len(o.Sizes2)))
 	}
 	if o.Sizes != nil {
 		p = append(p, fmt.Sprintf("sizes=%d", len(o.Sizes)))
